@@ -92,6 +92,9 @@ Apply(e) ==
            THEN LET d2 == DmDeliver(dm, Tr.cfg, n, Head(pend[n])) IN
                 S(ns, pc, [pend EXCEPT ![n] = Tail(@)], d2.dm, bm, IF Tr.expect.dm THEN d2.bad ELSE {})
            ELSE Fail("callback differs from the delivery the specification predicts")
+      [] e.ev = "rx" /\ Has2(e, "flags") /\ (~e.flags.ext \/ e.flags.remote \/ e.flags.error) ->
+           \* only extended-id data frames are processed at all (11-bit, remote and error frames are ignored)
+           IF Has2(e, "exc") THEN Fail("rx exception behaviour") ELSE S(ns, pc, pend, dm, bm, {})
       [] e.ev = "rx" ->
            LET r == Notify(ns[n], Cfg(n), e.id, e.data, e.t) IN
            IF r.unmodeled THEN Fail("input outside this specification")
